@@ -26,6 +26,7 @@ type gxPkg struct {
 	structs map[string]*ast.StructType
 	funcs   map[string]*ast.FuncDecl // "Recv.Name" or "Name"
 	vars    map[string]ast.Expr      // package-level var name -> type expr
+	consts  map[string]string        // package-level integer constants given by a literal
 }
 
 var gxPkgs = map[string]*gxPkg{}
@@ -37,7 +38,7 @@ func gxLoad(repo string) error {
 		if err != nil {
 			return err
 		}
-		p := &gxPkg{name: d, structs: map[string]*ast.StructType{}, funcs: map[string]*ast.FuncDecl{}, vars: map[string]ast.Expr{}}
+		p := &gxPkg{name: d, structs: map[string]*ast.StructType{}, funcs: map[string]*ast.FuncDecl{}, vars: map[string]ast.Expr{}, consts: map[string]string{}}
 		for _, e := range ents {
 			n := e.Name()
 			if !strings.HasSuffix(n, ".go") || strings.HasSuffix(n, "_test.go") || strings.Contains(n, "verif") ||
@@ -59,6 +60,15 @@ func gxLoad(repo string) error {
 								p.structs[sp.Name.Name] = st
 							}
 						case *ast.ValueSpec:
+							if x.Tok == token.CONST {
+								for i, nm := range sp.Names {
+									if i < len(sp.Values) {
+										if bl, ok := sp.Values[i].(*ast.BasicLit); ok && bl.Kind == token.INT {
+											p.consts[nm.Name] = bl.Value
+										}
+									}
+								}
+							}
 							if x.Tok == token.VAR && sp.Type != nil {
 								for _, nm := range sp.Names {
 									p.vars[nm.Name] = sp.Type
@@ -176,6 +186,8 @@ type gxFn struct {
 	recvName  string
 	fail      string
 	locals    map[string]bool
+	elemMode  bool     // translating the body of a range loop that fills one output element per iteration
+	elemKeys  []string // the fields of the output element, in the order they are emitted
 }
 
 func (g *gxFn) param(name, typ string) string {
@@ -311,6 +323,13 @@ func (g *gxFn) tr(e ast.Expr) string {
 		if _, ok := durUnits[exprString(x)]; ok {
 			return fmt.Sprint(durUnits[exprString(x)])
 		}
+		if id, ok := x.X.(*ast.Ident); ok {
+			if pk, ok := gxPkgs[id.Name]; ok {
+				if v, ok := pk.consts[x.Sel.Name]; ok {
+					return v // an integer constant of another package of the repository
+				}
+			}
+		}
 		if s, ok := flat(x); ok {
 			return g.param(s, g.typeOf(x))
 		}
@@ -360,6 +379,8 @@ func (g *gxFn) tr(e ast.Expr) string {
 			return wrap(a+" - "+b, t)
 		case token.MUL:
 			return wrap(a+" * "+b, t)
+		case token.QUO:
+			return "(" + a + " / " + b + ")" // operands are non-negative where this is used: Go's truncation = floor
 		case token.LAND:
 			return "(" + a + " && " + b + ")"
 		case token.LOR:
@@ -402,6 +423,14 @@ func (g *gxFn) tr(e ast.Expr) string {
 			}
 		}
 		s := exprString(x.Fun)
+		if strings.HasSuffix(s, ".AsSlice") && len(x.Args) == 0 {
+			if sel, ok := x.Fun.(*ast.SelectorExpr); ok {
+				return g.tr(sel.X) // netip.Addr -> bytes: the same address
+			}
+		}
+		if s == "ConvertDurationToMs" && len(x.Args) == 1 {
+			return "(" + g.param("go_ms", "fn") + " " + g.tr(x.Args[0]) + ")" // the unit conversion is an argument of the translation
+		}
 		if s == "slices.Clip" && len(x.Args) == 1 {
 			return g.tr(x.Args[0]) // capacity only
 		}
@@ -505,6 +534,9 @@ func coqType(t string) string {
 	if t == "list" {
 		return "list (bool * bool)" // a slice of *ProbeResponse as far as the translated code looks at it: (is nil, IsDest)
 	}
+	if t == "fn" {
+		return "Z -> Z"
+	}
 	return "Z"
 }
 
@@ -514,6 +546,59 @@ func (g *gxFn) stmts(list []ast.Stmt, results int) string {
 		return "?"
 	}
 	s, rest := list[0], list[1:]
+	if g.elemMode {
+		switch x := s.(type) {
+		case *ast.ReturnStmt:
+			return "None" // the loop is abandoned with an error
+		case *ast.AssignStmt:
+			if len(x.Lhs) == 1 && len(x.Rhs) == 1 {
+				if _, ok := x.Lhs[0].(*ast.IndexExpr); ok {
+					var lit *ast.CompositeLit
+					if u, ok := x.Rhs[0].(*ast.UnaryExpr); ok && u.Op == token.AND {
+						lit, _ = u.X.(*ast.CompositeLit)
+					}
+					if lit == nil || len(rest) != 0 {
+						g.fail = "element assignment of an unsupported shape"
+						return "?"
+					}
+					vals := map[string]string{}
+					for _, el := range lit.Elts {
+						kv, ok := el.(*ast.KeyValueExpr)
+						if !ok {
+							g.fail = "positional composite literal"
+							return "?"
+						}
+						vals[exprString(kv.Key)] = g.tr(kv.Value)
+					}
+					var out []string
+					for _, k := range g.elemKeys {
+						name := strings.TrimPrefix(strings.TrimPrefix(k, "?"), "b:")
+						v, ok := vals[name]
+						delete(vals, name)
+						switch {
+						case strings.HasPrefix(k, "?"): // optional field: Some v / None
+							if ok {
+								out = append(out, "(Some "+v+")")
+							} else {
+								out = append(out, "None")
+							}
+						case ok:
+							out = append(out, v)
+						case strings.HasPrefix(k, "b:"):
+							out = append(out, "false")
+						default:
+							out = append(out, "0")
+						}
+					}
+					if len(vals) != 0 {
+						g.fail = "element field not in the expected set"
+						return "?"
+					}
+					return "Some (" + strings.Join(out, ", ") + ")"
+				}
+			}
+		}
+	}
 	switch x := s.(type) {
 	case *ast.ReturnStmt:
 		var rs []string
@@ -706,6 +791,44 @@ func translateExprIn(pkg string, fd *ast.FuncDecl, name string, pre []ast.Stmt, 
 	return nil
 }
 
+// translateRangeBody translates the body of the single range loop of fd as a function of the index and the element
+func translateRangeBody(pkg string, fd *ast.FuncDecl, name string, keys []string) error {
+	var rs *ast.RangeStmt
+	for _, s := range fd.Body.List {
+		if r, ok := s.(*ast.RangeStmt); ok {
+			if rs != nil {
+				return fmt.Errorf("%s: more than one range loop", name)
+			}
+			rs = r
+		}
+	}
+	if rs == nil || rs.Key == nil || rs.Value == nil {
+		return fmt.Errorf("%s: no `for i, x := range xs` loop", name)
+	}
+	g := newGxFn(pkg, false)
+	g.bindParams(fd.Type, fd.Recv)
+	g.elemMode, g.elemKeys = true, keys
+	// the ranged slice must be a parameter; its element type types the loop variable
+	for _, f := range fd.Type.Params.List {
+		for _, n := range f.Names {
+			if n.Name == exprString(rs.X) {
+				if at, ok := f.Type.(*ast.ArrayType); ok {
+					g.env[exprString(rs.Value)] = typeFromExpr(pkg, at.Elt)
+				}
+			}
+		}
+	}
+	g.env[exprString(rs.Key)] = "int"
+	g.param(exprString(rs.Key), "int")
+	body := g.stmts(rs.Body.List, 1)
+	if g.fail != "" {
+		return fmt.Errorf("%s: %s", name, g.fail)
+	}
+	gxDone[name] = &gxOut{group: gxGroup, coqName: name, params: g.params, ptypes: g.ptypes, body: body, src: pkg + "." + fd.Name.Name + " (loop body)"}
+	gxOrder = append(gxOrder, name)
+	return nil
+}
+
 func goExprs(repo string) (map[string]string, error) {
 	if err := gxLoad(repo); err != nil {
 		return nil, err
@@ -733,6 +856,12 @@ func goExprs(repo string) (map[string]string, error) {
 	fn("common", "TracerouteParams.validateProbe", true)
 	gxGroup = "GoClip"
 	fn("common", "clipResults", false)
+	gxGroup = "GoHops"
+	if fd, ok := gxPkgs["common"].funcs["ToHops"]; ok {
+		note(translateRangeBody("common", fd, "go_ToHops_element", []string{"TTL", "?IPAddress", "RTT", "b:IsDest"}))
+	} else {
+		problems[gxGroup] = append(problems[gxGroup], "common.ToHops not found")
+	}
 	gxGroup = "GoAlloc"
 	fn("packets", "AllocPacketID", false)
 	fn("icmp", "nextEchoID", false)
@@ -794,8 +923,62 @@ func goExprs(repo string) (map[string]string, error) {
 			problems[gxGroup] = append(problems[gxGroup], "serial merge condition not found")
 		}
 	}
-	// runTracerouteOnce: the TTL range rejection
+	// runTracerouteMulti: the pacing delay between end-to-end probes (definition + the clamp that follows it)
+	gxGroup = "GoTimeout"
+	if fd, ok := gxPkgs["traceroute"].funcs["Traceroute.runTracerouteMulti"]; ok {
+		done := false
+		ast.Inspect(fd.Body, func(n ast.Node) bool {
+			blk, ok := n.(*ast.BlockStmt)
+			if !ok || done {
+				return !done
+			}
+			for i, st := range blk.List {
+				as, ok := st.(*ast.AssignStmt)
+				if !ok || len(as.Lhs) != 1 || exprString(as.Lhs[0]) != "e2eQueriesDelay" || as.Tok != token.DEFINE {
+					continue
+				}
+				pre := []ast.Stmt{st}
+				if i+1 < len(blk.List) {
+					if ifs, ok := blk.List[i+1].(*ast.IfStmt); ok && strings.Contains(exprString(ifs.Cond), "e2eQueriesDelay") {
+						pre = append(pre, ifs)
+					}
+				}
+				note(translateExprIn("traceroute", fd, "go_e2e_queries_delay", pre, nil, "e2eQueriesDelay"))
+				done = true
+				return false
+			}
+			return true
+		})
+		if !done {
+			problems[gxGroup] = append(problems[gxGroup], "e2eQueriesDelay not found in runTracerouteMulti")
+		}
+	} else {
+		problems[gxGroup] = append(problems[gxGroup], "Traceroute.runTracerouteMulti not found")
+	}
+	// RunTraceroute: the destination port (the default when 0)
 	gxGroup = "GoRange"
+	if fd, ok := gxPkgs["traceroute"].funcs["Traceroute.RunTraceroute"]; ok {
+		var pre []ast.Stmt
+		for i, st := range fd.Body.List {
+			if as, ok := st.(*ast.AssignStmt); ok && len(as.Lhs) == 1 && exprString(as.Lhs[0]) == "destinationPort" && as.Tok == token.DEFINE {
+				pre = append(pre, st)
+				if i+1 < len(fd.Body.List) {
+					if ifs, ok := fd.Body.List[i+1].(*ast.IfStmt); ok && strings.Contains(exprString(ifs.Cond), "destinationPort") {
+						pre = append(pre, ifs)
+					}
+				}
+				break
+			}
+		}
+		if pre != nil {
+			note(translateExprIn("traceroute", fd, "go_destination_port", pre, nil, "destinationPort"))
+		} else {
+			problems[gxGroup] = append(problems[gxGroup], "destinationPort not found in RunTraceroute")
+		}
+	} else {
+		problems[gxGroup] = append(problems[gxGroup], "Traceroute.RunTraceroute not found")
+	}
+	// runTracerouteOnce: the TTL range rejection
 	if fd, ok := gxPkgs["traceroute"].funcs["runTracerouteOnce"]; ok {
 		if ifs, ok := fd.Body.List[0].(*ast.IfStmt); ok {
 			note(translateExprIn("traceroute", fd, "go_runOnce_ttl_range_rejected", nil, ifs.Cond, ""))
@@ -820,7 +1003,7 @@ func goExprs(repo string) (map[string]string, error) {
 		})
 	}
 	out := map[string]string{}
-	for _, grp := range []string{"GoTimeout", "GoValidate", "GoClip", "GoAlloc", "GoIds", "GoMerge", "GoRange"} {
+	for _, grp := range []string{"GoTimeout", "GoValidate", "GoClip", "GoHops", "GoAlloc", "GoIds", "GoMerge", "GoRange"} {
 		var b strings.Builder
 		b.WriteString("(** GENERATED on every run by tools/goextract (exprs.go) from /repo.  Do not edit.\n")
 		for _, p := range problems[grp] {
